@@ -124,6 +124,28 @@ class Rewriter(ast.NodeTransformer):
                     names.add(n.id)
         return sorted(names)
 
+    def _inplace(self, stmts):
+        """Names of objects written in place in the body: x[...] = ..., x[...] op= ..., x op= ... (numpy in-place), x.attr = ..."""
+        names = set()
+        for b in stmts:
+            for n in ast.walk(b):
+                tg = []
+                if isinstance(n, ast.Assign):
+                    tg = n.targets
+                elif isinstance(n, (ast.AugAssign, ast.AnnAssign)):
+                    tg = [n.target]
+                for t in tg:
+                    for tt in ast.walk(t):
+                        if isinstance(tt, (ast.Subscript, ast.Attribute)) and isinstance(tt.ctx, ast.Store):
+                            base = tt.value
+                            while isinstance(base, (ast.Subscript, ast.Attribute)):
+                                base = base.value
+                            if isinstance(base, ast.Name):
+                                names.add(base.id)
+                    if isinstance(n, ast.AugAssign) and isinstance(t, ast.Name):
+                        names.add(t.id)
+        return sorted(names)
+
     def _cut(self, node, is_for):
         q, k = self._loop_key()
         key = (q, k)
@@ -133,10 +155,26 @@ class Rewriter(ast.NodeTransformer):
             return node
         self.used_cuts.add(key)
         lid = self.cuts[key]
+        frame_only = False
+        if isinstance(lid, tuple):
+            lid, mode = lid
+            frame_only = mode == "frame"
         self.nloop += 1
         L = f"vcx_L{self.nloop}"
         H = f"vcx_H{self.nloop}"
         mods = self._stores(node.body + ([node.target] if is_for else []))
+        if frame_only:
+            # frame-only cut: the loop is replaced by a havoc of everything its body can modify (names assigned, objects written through
+            # subscripts / augmented assignments); the body itself is NOT explored here (its clauses are checked elsewhere)
+            inplace = self._inplace(node.body)
+            code = ast.parse(
+                f"{L} = vcx_loop({lid!r}, {tuple(mods)!r})\n"
+                f"{H} = {L}.havoc_frame(locals(), {tuple(mods)!r}, {tuple(inplace)!r})\n"
+                + "".join(f"if {n!r} in {H}: {n} = {H}[{n!r}]\n" for n in mods)
+            ).body
+            for n in code:
+                ast.copy_location(n, node)
+            return code
         pre = ast.parse(
             f"{L} = vcx_loop({lid!r}, {tuple(mods)!r})\n"
             f"{L}.begin(None, locals())\n"
